@@ -14,7 +14,8 @@ EXPLANATION = (
     "contains the previous history exactly once, the source's history at most once and only under the history flag; "
     "store level: TrackStore::add delegates to add_observation / TrackBuilder::build, the worker's Merge arm forwards "
     "Track::merge's result, merge_owned re-adds the fetched source on failure. "
-    "R11.4 also requires that TrackStore::add puts a track into the shard only when no error exit is reachable afterwards; R11.5 who-may-write rows for Track.{attributes, observations, merge_history}.")
+    "R11.4 also requires that TrackStore::add puts a track into the shard only when no error exit is reachable afterwards; R11.5 who-may-write rows for Track.{attributes, observations, merge_history}."
+    " R11.4 also requires that the worker's Merge arm hands Track::merge the class list and the history flag exactly as the caller sent them (or the classes of the source when the list is empty).")
 NOT_DECIDED = ["faithfulness of the user's Clone impls (assumed)", "interior mutability inside user attribute types"]
 ASSUMPTIONS = ["Clone of TA / M / observations is a faithful snapshot", "panics are out of scope",
                "rustc nightly MIR construction"]
